@@ -2,7 +2,7 @@
 Proof: coq/Props/C16.v over Model/Cost.v (the RESP parser with an explicit allocation / step / depth semantics and panic
 outcomes; EVAL key collection; RangeMap::from).  Correspondence: harness/cost runs the real decode under a counting
 global allocator (bytes requested, largest request) and runs hostile inputs - buffers, commands through a real proxy
-handler, slot ranges - in CHILD processes (2 MiB stack, RLIMIT_AS 2 GiB, 15 s timeout), against the extracted model's
+handler, slot ranges - in CHILD processes (2 MiB stack, RLIMIT_AS 2 GiB or the proved bound + 1 GiB for MB-sized buffers, 15 s + 1 s per 10 KB timeout), against the extracted model's
 predicted outcome and allocation.  Monitors: no panic / abort / signal / timeout; allocation within the proved bound."""
 import vlib, re
 
@@ -31,7 +31,7 @@ MANIFEST = {
 
 TRUSTED = ['Coq 8.16.1 kernel (coqc; coqchk in the thorough tier); no axioms (Print Assumptions: closed)',
            'extraction with ExtrOcamlBasic only (+ Extraction Blacklist for file names) + ocaml/vio.ml, d_cost.ml, driver_lib.ml',
-           'harness/cost: counting #[global_allocator] (requests of the measuring thread), child processes with RLIMIT_AS 2 GiB / 2 MiB stack / 15 s timeout, '
+           'harness/cost: counting #[global_allocator] (requests of the measuring thread), child processes with RLIMIT_AS max(2 GiB, proved bound 4128*len + 1 GiB) / 2 MiB stack / 15 s + 1 s per 10 KB timeout, '
            'a real SharedForwardHandler over stand-in backends',
            'cost semantics of Model/Cost.v: size_of::<RespIndex>() = 32 (printed by the harness and compared), shared header of BytesMut::split_to = 40 bytes (bytes 1.2.1), '
            'Vec::with_capacity(n) requests exactly n * 32 bytes and panics above isize::MAX',
@@ -315,9 +315,9 @@ def run(chk):
                 elif int(mm.get('steps', '0')) > 16385 * max(1, len(meta['ranges'])): bad = 'model steps above the bound'
         if bad:
             nfail += 1
-            chk.violation({'kind': 'monitor', 'case': line[:20000], 'impl': o[:600], 'model': m[:600], 'what': bad})
+            chk.violation({'kind': 'monitor', 'case': line, 'impl': o[:600], 'model': m[:600], 'what': bad})
         elif dis:
-            disagreements.append({'case': line[:20000], 'impl': o[:600], 'model': m[:600], 'what': dis})
+            disagreements.append({'case': line, 'impl': o[:600], 'model': m[:600], 'what': dis})
         if i % 101 == 0 or k != 'alloc' and i % 9 == 0: chk.sample({'case': line[:200], 'impl': o[:200], 'model': m[:200]}, limit=10)
     # two-connection sequences: extreme admin command on A, then A, B and a new connection C must still be served
     names = enumerate_from_code()
